@@ -3,10 +3,11 @@
     (Spec/TimeOfDay.v).  Written from the property text and the crate documentation; nothing is
     imported from the model.
 
-    Ops [ndt.*] (date-times with a leap operand, carry applied to the date) are judged by the lead's
-    extension once the date-time model exists: unknown ops are [JSkip] here. *)
+    Ops [ndt.*]: date-times follow the same rules with the carry applied to the date (day numbers of
+    the proleptic Gregorian calendar, Spec/Gregorian.v); refused exactly when the date leaves the
+    representable range. *)
 From Coq Require Import ZArith List Bool String.
-From V Require Import Base.Int Base.IO Spec.TimeOfDay.
+From V Require Import Base.Int Base.IO Spec.TimeOfDay Spec.Gregorian.
 Import ListNotations.
 Open Scope Z_scope.
 
@@ -107,8 +108,31 @@ Definition judge_off (sign : Z) (with_days : bool) (args : list val) (out : val)
   | _ => JSkip
   end.
 
+(* date-times: (year, ordinal, secs, frac) *)
+Definition exp_ndt (sign : Z) (y o s f d : Z) : option val :=
+  let '((s', f'), carry) := tl_add s f (sign * d) in
+  let n := dn_of_yo y o + carry / 86400 in
+  if dn_in_range n then let '(y', o') := yo_of_dn n in Some (VTup [VInt y'; VInt o'; VInt s'; VInt f']) else None.
+Definition judge_ndt (sign : Z) (op_form : bool) (args : list val) (out : val) : verdict :=
+  match args with
+  | [VTup [VInt y; VInt o; VInt s; VInt f]; b] =>
+      match ns_of_arg b with
+      | Some d =>
+          if year_in_range y && valid_yo y o && state_ok s f then
+            judge_eq (match exp_ndt sign y o s f d with
+                      | Some v => if op_form then v else VSome v
+                      | None => if op_form then VPanic else VNone end) out
+          else JSkip
+      | None => JSkip end
+  | _ => JSkip
+  end.
+
 Definition judge (op : bytes) (args : list val) (out : val) : verdict :=
-  if op_is op "t.hms" then
+  if op_is op "ndt.add" then judge_ndt 1 false args out
+  else if op_is op "ndt.sub" then judge_ndt (-1) false args out
+  else if op_is op "ndt.opadd" then judge_ndt 1 true args out
+  else if op_is op "ndt.opsub" then judge_ndt (-1) true args out
+  else if op_is op "t.hms" then
     match args with
     | [a; b; c] => match u32 a, u32 b, u32 c with
                    | Some h, Some m, Some s => judge_eq (exp_ctor h m s 0) out
